@@ -866,6 +866,13 @@ func DecodeFunc(query *Query, current Map, functionOptions *FunctionOptions, arg
 // |   *   |     any    |        array item         |
 // --------------------------------------------------
 func ArrayFunc(query *Query, current Map, functionOptions *FunctionOptions, args []any) (any, error) {
+	for i, arg := range args {
+		// a fuse marker only has a meaning as a select-list item: as an
+		// element it is the object itself
+		if fuse, ok := arg.(Fuse); ok {
+			args[i] = map[string]any(fuse)
+		}
+	}
 	return args, nil
 }
 
